@@ -276,10 +276,32 @@ def run(ctx):
         num_case(rng.choice(["", "", "-", "+", "- "]) + str(n), "int")
     for _ in range(900 if ctx.quick else 12000):
         a, b = str(rng.randrange(10 ** rng.randint(0, 12))), str(rng.randrange(10 ** rng.randint(0, 12)))
-        e = rng.choice(["", "", "e%d" % rng.randint(0, 30), "E+%d" % rng.randint(0, 300), "e-%d" % rng.randint(1, 330), "e%d" % rng.randint(300, 400)])
+        e = rng.choice(["", "", "%s%s%d" % (rng.choice("eE"), rng.choice(["", "+"]), rng.randint(0, 30)), "%s+%d" % (rng.choice("eE"), rng.randint(0, 300)),
+                        "%s-%d" % (rng.choice("eE"), rng.randint(1, 330)), "%s%d" % (rng.choice("eE"), rng.randint(300, 400))])
         form = rng.choice(["%s.%s" % (a, b), "%s." % a, ".%s" % b, a])
         kind = "float" if ("." in form or "e-" in e.lower()) else "int-exp"
         num_case(rng.choice(["", "", "-"]) + form + e, kind)
+
+    # every spelling of the exponent (letter case x sign) behind every form of mantissa, in a select item and inside an
+    # expression of each dialect: the lexer decides int / float by these characters alone
+    for mant in ("1", "25", "120", "1.", "1.5", ".5", "0", "00"):
+        for letter in "eE":
+            for sign in ("", "+", "-"):
+                for ex in ("0", "1", "3", "05", "12"):
+                    text = "%s%s%s%s" % (mant, letter, sign, ex)
+                    kind = "float" if ("." in mant or sign == "-") else "int-exp"
+                    for lead in ("", "-"):
+                        num_case(lead + text, kind)
+    for d in ("common", "mysql", "sqlserver", "bigquery"):
+        for text, want in (("1E-3", 0.001), ("25e-2", 0.25), ("120E-05", 0.0012), ("3E2", 300), ("3e+2", 300), ("1.E-3", 0.001)):
+            sql = "SELECT a FROM t WHERE b > %s AND f(%s) IN (%s, 7)" % (text, text, text)
+            r = R.parse_raw(sql, d)
+            rep.case("n:" + d + ":" + text)
+            good = {"from": "t", "select": {"value": "a"}, "where": {"and": [{"gt": ["b", want]}, {"in": [{"f": want}, [want, 7]]}]}}
+            if r[0] != "ok" or r[1] != good or not all(type(x) is type(want) for x in (r[1]["where"]["and"][0]["gt"][1], r[1]["where"]["and"][1]["in"][0]["f"])):
+                rep.count("finding", "num:in-expression")
+                rep.finding("num:in-expression", "%s(%r) -> %s" % (d, sql, C.cdump(C.canon(r[1])) if r[0] == "ok" else r[1]),
+                            {"kind": "parse-number", "sql": sql})
 
     # ---------------- numbers: value -> format -> parse, identical value AND type
     def fmt_case(v):
